@@ -43,6 +43,12 @@ theories/Event/Collection.vos theories/Event/Collection.vok theories/Event/Colle
 theories/Event/Collection_proofs.vo theories/Event/Collection_proofs.glob theories/Event/Collection_proofs.v.beautified theories/Event/Collection_proofs.required_vo: theories/Event/Collection_proofs.v theories/Base/Prelude.vo theories/Base/Bytes.vo theories/Event/Merge.vo theories/Event/Merge_proofs.vo theories/Event/Stream.vo theories/Event/Collection.vo
 theories/Event/Collection_proofs.vio: theories/Event/Collection_proofs.v theories/Base/Prelude.vio theories/Base/Bytes.vio theories/Event/Merge.vio theories/Event/Merge_proofs.vio theories/Event/Stream.vio theories/Event/Collection.vio
 theories/Event/Collection_proofs.vos theories/Event/Collection_proofs.vok theories/Event/Collection_proofs.required_vos: theories/Event/Collection_proofs.v theories/Base/Prelude.vos theories/Base/Bytes.vos theories/Event/Merge.vos theories/Event/Merge_proofs.vos theories/Event/Stream.vos theories/Event/Collection.vos
+theories/Event/Collection_perm.vo theories/Event/Collection_perm.glob theories/Event/Collection_perm.v.beautified theories/Event/Collection_perm.required_vo: theories/Event/Collection_perm.v theories/Base/Prelude.vo theories/Event/Merge.vo theories/Event/Merge_proofs.vo theories/Event/Merge_order_proofs.vo theories/Event/Stream.vo theories/Event/Collection.vo theories/Event/Collection_proofs.vo
+theories/Event/Collection_perm.vio: theories/Event/Collection_perm.v theories/Base/Prelude.vio theories/Event/Merge.vio theories/Event/Merge_proofs.vio theories/Event/Merge_order_proofs.vio theories/Event/Stream.vio theories/Event/Collection.vio theories/Event/Collection_proofs.vio
+theories/Event/Collection_perm.vos theories/Event/Collection_perm.vok theories/Event/Collection_perm.required_vos: theories/Event/Collection_perm.v theories/Base/Prelude.vos theories/Event/Merge.vos theories/Event/Merge_proofs.vos theories/Event/Merge_order_proofs.vos theories/Event/Stream.vos theories/Event/Collection.vos theories/Event/Collection_proofs.vos
+theories/Event/Stream_proofs.vo theories/Event/Stream_proofs.glob theories/Event/Stream_proofs.v.beautified theories/Event/Stream_proofs.required_vo: theories/Event/Stream_proofs.v theories/Base/Prelude.vo theories/Base/Bytes.vo theories/Event/Merge.vo theories/Event/Merge_proofs.vo theories/Event/Merge_order_proofs.vo theories/Event/Stream.vo theories/Event/Collection.vo theories/Event/Collection_proofs.vo theories/Event/Collection_perm.vo
+theories/Event/Stream_proofs.vio: theories/Event/Stream_proofs.v theories/Base/Prelude.vio theories/Base/Bytes.vio theories/Event/Merge.vio theories/Event/Merge_proofs.vio theories/Event/Merge_order_proofs.vio theories/Event/Stream.vio theories/Event/Collection.vio theories/Event/Collection_proofs.vio theories/Event/Collection_perm.vio
+theories/Event/Stream_proofs.vos theories/Event/Stream_proofs.vok theories/Event/Stream_proofs.required_vos: theories/Event/Stream_proofs.v theories/Base/Prelude.vos theories/Base/Bytes.vos theories/Event/Merge.vos theories/Event/Merge_proofs.vos theories/Event/Merge_order_proofs.vos theories/Event/Stream.vos theories/Event/Collection.vos theories/Event/Collection_proofs.vos theories/Event/Collection_perm.vos
 theories/Event/Repr.vo theories/Event/Repr.glob theories/Event/Repr.v.beautified theories/Event/Repr.required_vo: theories/Event/Repr.v theories/Base/Prelude.vo theories/Base/Bytes.vo
 theories/Event/Repr.vio: theories/Event/Repr.v theories/Base/Prelude.vio theories/Base/Bytes.vio
 theories/Event/Repr.vos theories/Event/Repr.vok theories/Event/Repr.required_vos: theories/Event/Repr.v theories/Base/Prelude.vos theories/Base/Bytes.vos
@@ -76,6 +82,9 @@ theories/Onto/Compat.vos theories/Onto/Compat.vok theories/Onto/Compat.required_
 theories/Onto/Compat_proofs.vo theories/Onto/Compat_proofs.glob theories/Onto/Compat_proofs.v.beautified theories/Onto/Compat_proofs.required_vo: theories/Onto/Compat_proofs.v theories/Base/Prelude.vo theories/Base/Bytes.vo theories/Onto/Tree.vo theories/Onto/Kinds.vo theories/Onto/Cmp_proofs.vo theories/Onto/Compat.vo theories/Event/Hash.vo theories/Event/Merge.vo
 theories/Onto/Compat_proofs.vio: theories/Onto/Compat_proofs.v theories/Base/Prelude.vio theories/Base/Bytes.vio theories/Onto/Tree.vio theories/Onto/Kinds.vio theories/Onto/Cmp_proofs.vio theories/Onto/Compat.vio theories/Event/Hash.vio theories/Event/Merge.vio
 theories/Onto/Compat_proofs.vos theories/Onto/Compat_proofs.vok theories/Onto/Compat_proofs.required_vos: theories/Onto/Compat_proofs.v theories/Base/Prelude.vos theories/Base/Bytes.vos theories/Onto/Tree.vos theories/Onto/Kinds.vos theories/Onto/Cmp_proofs.vos theories/Onto/Compat.vos theories/Event/Hash.vos theories/Event/Merge.vos
+theories/Onto/Cmp_trans.vo theories/Onto/Cmp_trans.glob theories/Onto/Cmp_trans.v.beautified theories/Onto/Cmp_trans.required_vo: theories/Onto/Cmp_trans.v theories/Base/Prelude.vo theories/Onto/Tree.vo theories/Onto/Kinds.vo theories/Onto/Cmp_proofs.vo theories/Onto/Compat.vo theories/Onto/Compat_proofs.vo
+theories/Onto/Cmp_trans.vio: theories/Onto/Cmp_trans.v theories/Base/Prelude.vio theories/Onto/Tree.vio theories/Onto/Kinds.vio theories/Onto/Cmp_proofs.vio theories/Onto/Compat.vio theories/Onto/Compat_proofs.vio
+theories/Onto/Cmp_trans.vos theories/Onto/Cmp_trans.vok theories/Onto/Cmp_trans.required_vos: theories/Onto/Cmp_trans.v theories/Base/Prelude.vos theories/Onto/Tree.vos theories/Onto/Kinds.vos theories/Onto/Cmp_proofs.vos theories/Onto/Compat.vos theories/Onto/Compat_proofs.vos
 theories/Onto/Track.vo theories/Onto/Track.glob theories/Onto/Track.v.beautified theories/Onto/Track.required_vo: theories/Onto/Track.v theories/Base/Prelude.vo
 theories/Onto/Track.vio: theories/Onto/Track.v theories/Base/Prelude.vio
 theories/Onto/Track.vos theories/Onto/Track.vok theories/Onto/Track.required_vos: theories/Onto/Track.v theories/Base/Prelude.vos
@@ -151,9 +160,9 @@ theories/Props/C03.vos theories/Props/C03.vok theories/Props/C03.required_vos: t
 theories/Props/C04.vo theories/Props/C04.glob theories/Props/C04.v.beautified theories/Props/C04.required_vo: theories/Props/C04.v theories/Base/Prelude.vo theories/Base/Bytes.vo theories/Event/Merge.vo theories/Event/Hash.vo theories/Event/Hash_proofs.vo theories/Event/Merge_proofs.vo
 theories/Props/C04.vio: theories/Props/C04.v theories/Base/Prelude.vio theories/Base/Bytes.vio theories/Event/Merge.vio theories/Event/Hash.vio theories/Event/Hash_proofs.vio theories/Event/Merge_proofs.vio
 theories/Props/C04.vos theories/Props/C04.vok theories/Props/C04.required_vos: theories/Props/C04.v theories/Base/Prelude.vos theories/Base/Bytes.vos theories/Event/Merge.vos theories/Event/Hash.vos theories/Event/Hash_proofs.vos theories/Event/Merge_proofs.vos
-theories/Props/C05.vo theories/Props/C05.glob theories/Props/C05.v.beautified theories/Props/C05.required_vo: theories/Props/C05.v theories/Base/Prelude.vo theories/Base/Bytes.vo theories/Event/Merge.vo theories/Event/Merge_proofs.vo theories/Event/Merge_order_proofs.vo
-theories/Props/C05.vio: theories/Props/C05.v theories/Base/Prelude.vio theories/Base/Bytes.vio theories/Event/Merge.vio theories/Event/Merge_proofs.vio theories/Event/Merge_order_proofs.vio
-theories/Props/C05.vos theories/Props/C05.vok theories/Props/C05.required_vos: theories/Props/C05.v theories/Base/Prelude.vos theories/Base/Bytes.vos theories/Event/Merge.vos theories/Event/Merge_proofs.vos theories/Event/Merge_order_proofs.vos
+theories/Props/C05.vo theories/Props/C05.glob theories/Props/C05.v.beautified theories/Props/C05.required_vo: theories/Props/C05.v theories/Base/Prelude.vo theories/Base/Bytes.vo theories/Event/Merge.vo theories/Event/Merge_proofs.vo theories/Event/Merge_order_proofs.vo theories/Event/Stream.vo theories/Event/Collection.vo theories/Event/Collection_proofs.vo theories/Event/Collection_perm.vo theories/Event/Stream_proofs.vo
+theories/Props/C05.vio: theories/Props/C05.v theories/Base/Prelude.vio theories/Base/Bytes.vio theories/Event/Merge.vio theories/Event/Merge_proofs.vio theories/Event/Merge_order_proofs.vio theories/Event/Stream.vio theories/Event/Collection.vio theories/Event/Collection_proofs.vio theories/Event/Collection_perm.vio theories/Event/Stream_proofs.vio
+theories/Props/C05.vos theories/Props/C05.vok theories/Props/C05.required_vos: theories/Props/C05.v theories/Base/Prelude.vos theories/Base/Bytes.vos theories/Event/Merge.vos theories/Event/Merge_proofs.vos theories/Event/Merge_order_proofs.vos theories/Event/Stream.vos theories/Event/Collection.vos theories/Event/Collection_proofs.vos theories/Event/Collection_perm.vos theories/Event/Stream_proofs.vos
 theories/Props/C06.vo theories/Props/C06.glob theories/Props/C06.v.beautified theories/Props/C06.required_vo: theories/Props/C06.v theories/Base/Prelude.vo theories/Parse/Chunk.vo theories/Parse/Chunk_proofs.vo
 theories/Props/C06.vio: theories/Props/C06.v theories/Base/Prelude.vio theories/Parse/Chunk.vio theories/Parse/Chunk_proofs.vio
 theories/Props/C06.vos theories/Props/C06.vok theories/Props/C06.required_vos: theories/Props/C06.v theories/Base/Prelude.vos theories/Parse/Chunk.vos theories/Parse/Chunk_proofs.vos
@@ -163,9 +172,9 @@ theories/Props/C07.vos theories/Props/C07.vok theories/Props/C07.required_vos: t
 theories/Props/C08.vo theories/Props/C08.glob theories/Props/C08.v.beautified theories/Props/C08.required_vo: theories/Props/C08.v theories/Base/Prelude.vo theories/Base/Bytes.vo theories/Onto/Tree.vo theories/Valid/Normalize.vo theories/Valid/Normalize_proofs.vo theories/Onto/Xml.vo theories/Onto/Xml_proofs.vo theories/Generated/C13_gen.vo theories/Generated/C08_gen.vo theories/Props/C13.vo
 theories/Props/C08.vio: theories/Props/C08.v theories/Base/Prelude.vio theories/Base/Bytes.vio theories/Onto/Tree.vio theories/Valid/Normalize.vio theories/Valid/Normalize_proofs.vio theories/Onto/Xml.vio theories/Onto/Xml_proofs.vio theories/Generated/C13_gen.vio theories/Generated/C08_gen.vio theories/Props/C13.vio
 theories/Props/C08.vos theories/Props/C08.vok theories/Props/C08.required_vos: theories/Props/C08.v theories/Base/Prelude.vos theories/Base/Bytes.vos theories/Onto/Tree.vos theories/Valid/Normalize.vos theories/Valid/Normalize_proofs.vos theories/Onto/Xml.vos theories/Onto/Xml_proofs.vos theories/Generated/C13_gen.vos theories/Generated/C08_gen.vos theories/Props/C13.vos
-theories/Props/C09.vo theories/Props/C09.glob theories/Props/C09.v.beautified theories/Props/C09.required_vo: theories/Props/C09.v theories/Base/Prelude.vo theories/Onto/Tree.vo theories/Onto/Kinds.vo theories/Onto/Cmp_proofs.vo theories/Generated/C09_gen.vo
-theories/Props/C09.vio: theories/Props/C09.v theories/Base/Prelude.vio theories/Onto/Tree.vio theories/Onto/Kinds.vio theories/Onto/Cmp_proofs.vio theories/Generated/C09_gen.vio
-theories/Props/C09.vos theories/Props/C09.vok theories/Props/C09.required_vos: theories/Props/C09.v theories/Base/Prelude.vos theories/Onto/Tree.vos theories/Onto/Kinds.vos theories/Onto/Cmp_proofs.vos theories/Generated/C09_gen.vos
+theories/Props/C09.vo theories/Props/C09.glob theories/Props/C09.v.beautified theories/Props/C09.required_vo: theories/Props/C09.v theories/Base/Prelude.vo theories/Onto/Tree.vo theories/Onto/Kinds.vo theories/Onto/Cmp_proofs.vo theories/Onto/Compat.vo theories/Onto/Compat_proofs.vo theories/Onto/Cmp_trans.vo theories/Generated/C09_gen.vo
+theories/Props/C09.vio: theories/Props/C09.v theories/Base/Prelude.vio theories/Onto/Tree.vio theories/Onto/Kinds.vio theories/Onto/Cmp_proofs.vio theories/Onto/Compat.vio theories/Onto/Compat_proofs.vio theories/Onto/Cmp_trans.vio theories/Generated/C09_gen.vio
+theories/Props/C09.vos theories/Props/C09.vok theories/Props/C09.required_vos: theories/Props/C09.v theories/Base/Prelude.vos theories/Onto/Tree.vos theories/Onto/Kinds.vos theories/Onto/Cmp_proofs.vos theories/Onto/Compat.vos theories/Onto/Compat_proofs.vos theories/Onto/Cmp_trans.vos theories/Generated/C09_gen.vos
 theories/Props/C10.vo theories/Props/C10.glob theories/Props/C10.v.beautified theories/Props/C10.required_vo: theories/Props/C10.v theories/Base/Prelude.vo theories/Base/Bytes.vo theories/Onto/Tree.vo theories/Onto/Kinds.vo theories/Onto/Compat.vo theories/Onto/Compat_proofs.vo theories/Event/Hash.vo theories/Event/Merge.vo
 theories/Props/C10.vio: theories/Props/C10.v theories/Base/Prelude.vio theories/Base/Bytes.vio theories/Onto/Tree.vio theories/Onto/Kinds.vio theories/Onto/Compat.vio theories/Onto/Compat_proofs.vio theories/Event/Hash.vio theories/Event/Merge.vio
 theories/Props/C10.vos theories/Props/C10.vok theories/Props/C10.required_vos: theories/Props/C10.v theories/Base/Prelude.vos theories/Base/Bytes.vos theories/Onto/Tree.vos theories/Onto/Kinds.vos theories/Onto/Compat.vos theories/Onto/Compat_proofs.vos theories/Event/Hash.vos theories/Event/Merge.vos
@@ -217,9 +226,9 @@ theories/Props/C16.vos theories/Props/C16.vok theories/Props/C16.required_vos: t
 theories/Props/C17.vo theories/Props/C17.glob theories/Props/C17.v.beautified theories/Props/C17.required_vo: theories/Props/C17.v theories/Base/Prelude.vo theories/Transcode/Mediator.vo theories/Transcode/Mediator_proofs.vo
 theories/Props/C17.vio: theories/Props/C17.v theories/Base/Prelude.vio theories/Transcode/Mediator.vio theories/Transcode/Mediator_proofs.vio
 theories/Props/C17.vos theories/Props/C17.vok theories/Props/C17.required_vos: theories/Props/C17.v theories/Base/Prelude.vos theories/Transcode/Mediator.vos theories/Transcode/Mediator_proofs.vos
-theories/Props/C18.vo theories/Props/C18.glob theories/Props/C18.v.beautified theories/Props/C18.required_vo: theories/Props/C18.v theories/Base/Prelude.vo theories/Event/Merge.vo theories/Event/Merge_proofs.vo theories/Event/Stream.vo theories/Event/Collection.vo theories/Event/Collection_proofs.vo
-theories/Props/C18.vio: theories/Props/C18.v theories/Base/Prelude.vio theories/Event/Merge.vio theories/Event/Merge_proofs.vio theories/Event/Stream.vio theories/Event/Collection.vio theories/Event/Collection_proofs.vio
-theories/Props/C18.vos theories/Props/C18.vok theories/Props/C18.required_vos: theories/Props/C18.v theories/Base/Prelude.vos theories/Event/Merge.vos theories/Event/Merge_proofs.vos theories/Event/Stream.vos theories/Event/Collection.vos theories/Event/Collection_proofs.vos
+theories/Props/C18.vo theories/Props/C18.glob theories/Props/C18.v.beautified theories/Props/C18.required_vo: theories/Props/C18.v theories/Base/Prelude.vo theories/Event/Merge.vo theories/Event/Merge_proofs.vo theories/Event/Stream.vo theories/Event/Collection.vo theories/Event/Collection_proofs.vo theories/Event/Collection_perm.vo
+theories/Props/C18.vio: theories/Props/C18.v theories/Base/Prelude.vio theories/Event/Merge.vio theories/Event/Merge_proofs.vio theories/Event/Stream.vio theories/Event/Collection.vio theories/Event/Collection_proofs.vio theories/Event/Collection_perm.vio
+theories/Props/C18.vos theories/Props/C18.vok theories/Props/C18.required_vos: theories/Props/C18.v theories/Base/Prelude.vos theories/Event/Merge.vos theories/Event/Merge_proofs.vos theories/Event/Stream.vos theories/Event/Collection.vos theories/Event/Collection_proofs.vos theories/Event/Collection_perm.vos
 theories/Props/C19.vo theories/Props/C19.glob theories/Props/C19.v.beautified theories/Props/C19.required_vo: theories/Props/C19.v theories/Base/Prelude.vo theories/Parse/Tree.vo theories/Parse/Tree_proofs.vo
 theories/Props/C19.vio: theories/Props/C19.v theories/Base/Prelude.vio theories/Parse/Tree.vio theories/Parse/Tree_proofs.vio
 theories/Props/C19.vos theories/Props/C19.vok theories/Props/C19.required_vos: theories/Props/C19.v theories/Base/Prelude.vos theories/Parse/Tree.vos theories/Parse/Tree_proofs.vos
